@@ -24,7 +24,7 @@ if [ -n "$DEMO" ]; then
   RACE=""; grep -q "go test -race\|-race " $DEMO && RACE="-race"
   RUN=$(grep -o "func Test[A-Za-z0-9_]*" $DEMO | sed 's/func //' | paste -sd'|')
   go test $TAGS $RACE -vet=off -count=1 -timeout 10m -run "^($RUN)\$" ./engine/ >/tmp/demo_with.log 2>&1; DEMO_WITH=$?
-  git stash -q -- . ':!engine/zz_seed_demo_test.go' 2>/dev/null || git checkout -q -- $(git diff --name-only)
+  git apply -R /tmp/seed_rebased.diff
   go test $TAGS $RACE -vet=off -count=1 -timeout 10m -run "^($RUN)\$" ./engine/ >/tmp/demo_without.log 2>&1; DEMO_WITHOUT=$?
 fi
 cd /; git -C /repo worktree remove --force $WT
